@@ -327,7 +327,9 @@ def _gen_session(wl, plan, s, plots):
 
 
 def _gen_user_edit(wl):
-    """The caller edits one of its own option dicts in place between two calls."""
+    """The caller edits one of its own option dicts (or signal arrays) in place between two calls."""
+    if wl.random() < 0.3:
+        return {'fn': 'user_edit', 'obj': 'S0', 'key': None, 'value': wl.choice(('scale', 'negate', 'reverse'))}
     name = wl.choice(('THC0', 'THC1', 'THA0', 'THA1', 'BK0', 'FK0', 'FE0'))
     if name.startswith('THC'):
         key, val = wl.choice(CYC_TH), wl.choice((0.2, 0.3, 0.4, 0.6, 0.7))
@@ -687,7 +689,16 @@ class Session:
                 return
             ch = pool.changed()
             if ch is None:          # (an earlier mutation by the library is reported by the call that follows)
-                pool.objs[op['obj']][op['key']] = op['value']
+                target = pool.objs[op['obj']]
+                if op['key'] is None:               # a signal array: same object, new contents
+                    if op['value'] == 'scale':
+                        np.multiply(target, 2, out=target, casting='unsafe')
+                    elif op['value'] == 'negate':
+                        np.negative(target, out=target)
+                    else:
+                        target[:] = target[::-1].copy()
+                else:
+                    target[op['key']] = op['value']
                 for nm in pool.objs:            # the edited dict and every dict that nests it
                     fp = fingerprint(pool.objs[nm])
                     if fp != pool.fp[nm]:
